@@ -693,6 +693,12 @@ func oneWork(c workCfg, out *vsync.Outcome, src string) bool {
 				break
 			}
 		}
+		if c.n <= 16 {
+			c2, best2, out2 := shrinkWorkCfg(c, best, bestOut, fs[0].oracle)
+			if f2 := workOracles(c2, out2); len(f2) > 0 {
+				c, best, bestOut, fs = c2, best2, out2, f2
+			}
+		}
 		_, sched2, _, _, _ := workEvents(c, bestOut)
 		in2 := map[string]string{"prop": "C09", "cfg": c.String(), "decisions": dots(best), "schedule": sched2, "source": src,
 			"text": fmt.Sprintf("Work.Do(n=%d), children=%v, initial Adds=%v; %s; schedule (thread:choice) %s", c.n, c.g, c.inits, itemsDesc(len(c.g)), sched2)}
@@ -727,6 +733,161 @@ func oneWork(c workCfg, out *vsync.Outcome, src string) bool {
 		flushCmp()
 	}
 	return ok
+}
+
+// searchWork looks for a schedule of c failing the given oracle: the default schedule, then a bounded DFS.
+func searchWork(c workCfg, oracle string, budget int) (dec []int, out *vsync.Outcome, found bool) {
+	dfs(func(st vsync.Strategy) *vsync.Outcome { return runWork(c, st) }, 2, budget, func(o *vsync.Outcome) bool {
+		if f := workOracles(c, o); len(f) > 0 && f[0].oracle == oracle {
+			dec, out, found = chosen(o.Decisions), o, true
+			return false
+		}
+		return true
+	})
+	return
+}
+
+// dropItem removes item i from the configuration (edges to it and initial Adds of it go, larger ids shift down).
+func (c workCfg) dropItem(i int) workCfg {
+	ren := func(l []int) []int {
+		r := []int{}
+		for _, x := range l {
+			if x < i {
+				r = append(r, x)
+			} else if x > i {
+				r = append(r, x-1)
+			}
+		}
+		return r
+	}
+	c2 := workCfg{n: c.n, inits: ren(c.inits)}
+	for j, ch := range c.g {
+		if j != i {
+			c2.g = append(c2.g, ren(ch))
+		}
+	}
+	return c2
+}
+
+// shrinkWorkCfg: greedily fewer runners, fewer items, fewer edges, fewer initial Adds, while some schedule still
+// fails the oracle; then the shortest forced decision prefix.
+func shrinkWorkCfg(c workCfg, dec []int, out *vsync.Outcome, oracle string) (workCfg, []int, *vsync.Outcome) {
+	budget := 200
+	try := func(c2 workCfg) bool {
+		if d2, o2, ok := searchWork(c2, oracle, budget); ok {
+			c, dec, out = c2, d2, o2
+			return true
+		}
+		return false
+	}
+	for changed, rounds := true, 0; changed && rounds < 6; rounds++ {
+		changed = false
+		for c.n > 1 {
+			c2 := c
+			c2.n = c.n - 1
+			if !try(c2) {
+				break
+			}
+			changed = true
+		}
+		for i := len(c.g) - 1; i >= 0 && len(c.g) > 1; i-- {
+			if try(c.dropItem(i)) {
+				changed = true
+			}
+			if i > len(c.g) {
+				i = len(c.g)
+			}
+		}
+		for i := 0; i < len(c.g); i++ {
+			for j := 0; j < len(c.g[i]); j++ {
+				c2 := c
+				c2.g = append([][]int{}, c.g...)
+				c2.g[i] = append(append([]int{}, c.g[i][:j]...), c.g[i][j+1:]...)
+				if try(c2) {
+					changed = true
+					j--
+				}
+			}
+		}
+		for j := 0; j < len(c.inits); j++ {
+			c2 := c
+			c2.inits = append(append([]int{}, c.inits[:j]...), c.inits[j+1:]...)
+			if try(c2) {
+				changed = true
+				j--
+			}
+		}
+	}
+	for k := 0; k < len(dec); k++ {
+		o2 := runWork(c, &prefixStrat{prefix: dec[:k]})
+		if f := workOracles(c, o2); len(f) > 0 && f[0].oracle == oracle {
+			return c, dec[:k], o2
+		}
+	}
+	return c, dec, out
+}
+
+// runWorkPre: the initial Adds are made by several goroutines CONCURRENTLY before Do is called (the API allows
+// Add from any goroutine; the adders are joined before Do).  Returns the order in which the Adds took the lock,
+// which is the model's list of initial Adds, and the outcome of the Do phase.
+func runWorkPre(c workCfg, adders [][]int, stPre, st vsync.Strategy) ([]int, *vsync.Outcome, *vsync.Outcome) {
+	w := &parv.Work{}
+	items := newItems(len(c.g))
+	bodies := make([]func(), len(adders))
+	for a, list := range adders {
+		list := list
+		_ = a
+		bodies[a] = func() {
+			for _, i := range list {
+				vsync.Trace("pa:" + strconv.Itoa(i))
+				w.Add(items.val(i))
+			}
+		}
+	}
+	pre := vsync.Run(vsync.Coarse, stPre, 10000, bodies...)
+	// one coarse step = one Add (Lock ... Unlock); the item is the thread's last announcement before the step
+	var order []int
+	last := map[int]int{}
+	ni := 0
+	for si, stp := range pre.Steps {
+		for ni < len(pre.Notes) && pre.Notes[ni].Step < si {
+			if nt := pre.Notes[ni]; strings.HasPrefix(nt.Text, "pa:") {
+				last[nt.T], _ = strconv.Atoi(nt.Text[3:])
+			}
+			ni++
+		}
+		locked := false
+		for _, o := range stp.Ops {
+			if o.Kind == vsync.OpLock {
+				locked = true
+			}
+		}
+		if locked {
+			order = append(order, last[stp.T])
+		}
+	}
+	f := func(item any) {
+		i, ok := items.ids[item]
+		if !ok {
+			i = -1
+		}
+		vsync.Trace("b:" + strconv.Itoa(i))
+		if ok {
+			for _, ch := range c.g[i] {
+				vsync.Trace("a:" + strconv.Itoa(ch))
+				w.Add(items.val(ch))
+			}
+		}
+		vsync.Yield("fe")
+		vsync.Trace("e:" + strconv.Itoa(i))
+	}
+	c2 := c
+	c2.inits = order
+	out := vsync.Run(vsync.Coarse, st, c2.stepBound()+1, func() {
+		w.Do(c.n, f)
+		vsync.Trace("doret")
+	})
+	return order, pre, out
 }
 
 type smallCfg struct {
@@ -778,6 +939,30 @@ func mainWork() {
 			modelExplore(fmt.Sprintf("workexplore %d %s %s %d", n, c.graphStr(), dots(c.inits), 3000000), c.String())
 		}
 	}
+	// 1b. transition cover: every transition of the model's complete state graph is taken on the code at least once
+	coverCap := 8000
+	if thorough {
+		coverCap = 400000
+	}
+	allCovered := true
+	for k, sg := range smallGraphs() {
+		for n := 1; n <= 3; n++ {
+			c := workCfg{n: n, g: sg.g, inits: initsFor(sg, k)}
+			if enough() {
+				allCovered = false
+				break
+			}
+			if !coverConfig(fmt.Sprintf("workcover %d %s %s %d", n, c.graphStr(), dots(c.inits), coverCap), c.String(), func(sch [][2]int) (*vsync.Outcome, string) {
+				st := &replayStrat{sched: sch}
+				out := runWork(c, st)
+				oneWork(c, out, "transition-cover")
+				return out, st.diverged
+			}) {
+				allCovered = false
+			}
+		}
+	}
+	flushCmp()
 	// 2. exhaustive DFS over schedules of the real code with a pre-emption bound
 	bound, maxRuns := 2, 1500
 	if thorough {
@@ -859,6 +1044,30 @@ func mainWork() {
 		oneWork(c, out, src)
 	}
 	flushCmp()
+	// 4a. initial Adds made concurrently by several goroutines before Do (random interleaving of the adders)
+	nPre := 400
+	if thorough {
+		nPre = 20000
+	}
+	for i := 0; i < nPre && !enough(); i++ {
+		c := randWorkCfg(r, 4, 10)
+		adders := make([][]int, 2+r.Intn(2))
+		for a := range adders {
+			for k := r.Intn(4); k > 0; k-- {
+				adders[a] = append(adders[a], r.Intn(len(c.g)))
+			}
+		}
+		order, pre, out := runWorkPre(c, adders, &randStrat{r: r.Fork()}, &randStrat{r: r.Fork()})
+		if pre.Deadlock || pre.Panic != "" || pre.StepLimit {
+			violate("work/add-before-do", fmt.Sprintf("concurrent Adds before Do: deadlock=%v panic=%q", pre.Deadlock, pre.Panic),
+				map[string]string{"prop": "C09", "cfg": c.String(), "decisions": dots(chosen(pre.Decisions)), "mode": "pre-adders", "source": "pre-adders",
+					"text": fmt.Sprintf("adders %v on a Work with %d items", adders, len(c.g))})
+			continue
+		}
+		c.inits = order
+		oneWork(c, out, "pre-adders")
+	}
+	flushCmp()
 	// 4b. large worker counts (direct oracles only: the model replay is not worth its cost there)
 	for _, n := range []int{257, 300, 1000} {
 		for gi, g := range [][][]int{{{}}, {{1}, {2}, {}}, {{1, 2, 3}, {}, {}, {}}} {
@@ -909,9 +1118,9 @@ func mainWork() {
 					"text": fmt.Sprintf("Work.Do(n=%d), children=%v, initial Adds=%v; %s; fine-grained decisions %s", c.n, c.g, c.inits, itemsDesc(len(c.g)), dots(chosen(out.Decisions)))})
 		}
 	}
-	res.Exhaustive = false
+	res.Exhaustive = allCovered
 	_ = exhaustiveAll
-	res.Rule = fmt.Sprintf("real par.Work on the vsync scheduler (instrumented copy regenerated from the source): exhaustive DFS over all schedules with <= %d pre-emptions (cap %d runs per configuration) for n in 1..3 over %d configurations (item graphs of <= 8 nodes, the nil interface value among the items, empty initial sets included; items are Go values of mixed dynamic types whose printed forms collide), incl. every Intn answer and every choice of the woken waiter; %d complete schedules drawn from the Coq model and replayed on the code; %d random / priority-based schedules for n <= 8 and random graphs of <= 24 items; every executed schedule is replayed on the extracted model (event trace + runnable set after every step); %d further random schedules at the granularity of single sync operations (direct oracles only); the model's own state space is explored exhaustively for the small configurations. A case is non-trivial when its schedule has a pre-emption, a park or a Signal wake-up; distinct = distinct (configuration, event trace).", bound, maxRuns, len(smallGraphs()), nModel, nRand, nFine)
+	res.Rule = fmt.Sprintf("real par.Work on the vsync scheduler (instrumented copy regenerated from the source): exhaustive DFS over all schedules with <= %d pre-emptions (cap %d runs per configuration) for n in 1..3 over %d configurations (item graphs of <= 8 nodes, the nil interface value among the items, empty initial sets included; items are Go values of mixed dynamic types whose printed forms collide), incl. every Intn answer and every choice of the woken waiter; %d complete schedules drawn from the Coq model and replayed on the code; %d random / priority-based schedules for n <= 8 and random graphs of <= 24 items; a TRANSITION COVER of the model's complete state graph for each of these configurations whose graph has <= %d states (every transition of every reachable state taken on the code at least once; `exhaustive` = the cover was complete for all of them); %d runs whose initial Adds are made concurrently by 2-3 goroutines before Do; every executed schedule is replayed on the extracted model (event trace + runnable set after every step); %d further random schedules at the granularity of single sync operations (direct oracles only); the model's own state space is explored exhaustively for the small configurations. A case is non-trivial when its schedule has a pre-emption, a park or a Signal wake-up; distinct = distinct (configuration, event trace).", bound, maxRuns, len(smallGraphs()), nModel, nRand, coverCap, nPre, nFine)
 }
 
 func parseSched(s string) [][2]int {
@@ -955,9 +1164,13 @@ type ccall struct {
 	do bool
 	k  int
 }
+
+// cacheCfg: programs of Do/Get calls per goroutine; vals[k] is what f_k returns (0 = nil); deps[k] are the keys
+// f_k calls Do on (nested Do on other keys, as goproxytest's zip cache calls the archive cache) before it returns.
 type cacheCfg struct {
 	progs [][]ccall
 	vals  []int
+	deps  [][]int
 }
 
 func (c cacheCfg) progStr() string {
@@ -979,10 +1192,19 @@ func (c cacheCfg) progStr() string {
 	}
 	return strings.Join(ts, "/")
 }
-func (c cacheCfg) String() string { return c.progStr() + "|" + dots(c.vals) }
+func (c cacheCfg) depStr() string {
+	if len(c.deps) == 0 {
+		return "-"
+	}
+	p := make([]string, len(c.deps))
+	for i, d := range c.deps {
+		p[i] = dots(d)
+	}
+	return strings.Join(p, "/")
+}
+func (c cacheCfg) String() string { return c.progStr() + "|" + dots(c.vals) + "|" + c.depStr() }
 
-// fval: what f_k returns.  The value 0 stands for a nil result (an f may return the nil interface; the
-// model driver prints the value 0 as nil as well).
+// fval: what f_k returns.  The value 0 stands for a nil result (an f may return the nil interface).
 func (c cacheCfg) fval(k int) any {
 	if c.vals[k] == 0 {
 		return nil
@@ -990,10 +1212,45 @@ func (c cacheCfg) fval(k int) any {
 	return c.vals[k]
 }
 func (c cacheCfg) want(k int) string { return showVal(c.fval(k)) }
+func (c cacheCfg) depsOf(k int) []int {
+	if k < len(c.deps) {
+		return c.deps[k]
+	}
+	return nil
+}
+
+// cost of one Do(k) in model steps (kcL of Par/ParCacheProofs.v); ok = false when the dependencies are cyclic
+func (c cacheCfg) costs() (cost []int, ok bool) {
+	n := len(c.vals)
+	cost = make([]int, n)
+	state := make([]int, n) // 0 new, 1 on stack, 2 done
+	ok = true
+	var go1 func(k int) int
+	go1 = func(k int) int {
+		if state[k] == 2 {
+			return cost[k]
+		}
+		if state[k] == 1 {
+			ok = false
+			return 0
+		}
+		state[k] = 1
+		v := 13
+		for _, d := range c.depsOf(k) {
+			v += 1 + go1(d)
+		}
+		state[k], cost[k] = 2, v
+		return v
+	}
+	for k := 0; k < n; k++ {
+		go1(k)
+	}
+	return
+}
 
 func parseCacheCfg(s string) (cacheCfg, bool) {
 	p := strings.Split(s, "|")
-	if len(p) != 2 {
+	if len(p) != 2 && len(p) != 3 {
 		return cacheCfg{}, false
 	}
 	c := cacheCfg{vals: undots(p[1])}
@@ -1013,6 +1270,20 @@ func parseCacheCfg(s string) (cacheCfg, bool) {
 		}
 		c.progs = append(c.progs, prog)
 	}
+	if len(p) == 3 && p[2] != "-" {
+		for _, d := range strings.Split(p[2], "/") {
+			ds := undots(d)
+			for _, x := range ds {
+				if x < 0 || x >= len(c.vals) {
+					return cacheCfg{}, false
+				}
+			}
+			c.deps = append(c.deps, ds)
+		}
+		if len(c.deps) > len(c.vals) {
+			return cacheCfg{}, false
+		}
+	}
 	return c, true
 }
 
@@ -1023,25 +1294,49 @@ func showVal(v any) string {
 	return fmt.Sprint(v)
 }
 
-// stepBound is psi of the initial state (Par/ParCache.v): the proved bound on the number of steps.
+// stepBound is psi of the initial state (Par/ParCache.v with kcL): the proved bound on the number of steps.
 func (c cacheCfg) stepBound() int {
+	cost, ok := c.costs()
+	if !ok {
+		return 400 + 100*len(c.progs) // cyclic dependencies: the run is expected to deadlock long before
+	}
 	sum := 0
 	for _, p := range c.progs {
 		for i, cl := range p {
-			if i > 0 {
-				sum += 13
-			} else if cl.do {
-				sum += 12
-			} else {
-				sum += 4
+			v := 5
+			if cl.do {
+				v = cost[cl.k]
 			}
+			if i == 0 {
+				v--
+			}
+			sum += v
 		}
 	}
 	return sum
 }
 
+// plainVisible: the instrumented copy makes the plain accesses to e.result scheduling points of their own
+const plainVisible = parv.PlainAccesses > 0
+
 func runCache(c cacheCfg, st vsync.Strategy) *vsync.Outcome {
 	ch := &parv.Cache{}
+	var fOf func(k int) func() any
+	fOf = func(k int) func() any {
+		return func() any {
+			vsync.Yield("fb")
+			vsync.Trace("fb:" + strconv.Itoa(k))
+			for _, d := range c.depsOf(k) {
+				vsync.Yield("nd")
+				vsync.Trace("c:N" + strconv.Itoa(d))
+				v := ch.Do(d, fOf(d))
+				vsync.Trace(fmt.Sprintf("r:N%d=%s", d, showVal(v)))
+			}
+			vsync.Yield("fe")
+			vsync.Trace("fe:" + strconv.Itoa(k))
+			return c.fval(k)
+		}
+	}
 	bodies := make([]func(), len(c.progs))
 	for i, prog := range c.progs {
 		prog := prog
@@ -1050,13 +1345,7 @@ func runCache(c cacheCfg, st vsync.Strategy) *vsync.Outcome {
 				k := cl.k
 				if cl.do {
 					vsync.Trace("c:D" + strconv.Itoa(k))
-					v := ch.Do(k, func() any {
-						vsync.Yield("fb")
-						vsync.Trace("fb:" + strconv.Itoa(k))
-						vsync.Yield("fe")
-						vsync.Trace("fe:" + strconv.Itoa(k))
-						return c.fval(k)
-					})
+					v := ch.Do(k, fOf(k))
 					vsync.Trace(fmt.Sprintf("r:D%d=%s", k, showVal(v)))
 				} else {
 					vsync.Trace("c:G" + strconv.Itoa(k))
@@ -1069,6 +1358,97 @@ func runCache(c cacheCfg, st vsync.Strategy) *vsync.Outcome {
 	return vsync.Run(vsync.Fine, st, c.stepBound()+1, bodies...)
 }
 
+// hbRaces: happens-before check over the shim's event log (vector clocks; mutexes, atomics, sync.Map entries and
+// goroutine creation synchronise; the plain accesses are checked): the direct form of "no data race".
+func hbRaces(out *vsync.Outcome) (races []string) {
+	n := out.Threads
+	clock := make([][]int, n)
+	for t := range clock {
+		clock[t] = make([]int, n)
+		clock[t][t] = 1
+	}
+	join := func(dst, src []int) {
+		for i := range src {
+			if src[i] > dst[i] {
+				dst[i] = src[i]
+			}
+		}
+	}
+	rel := map[any][]int{} // release clock per synchronisation object
+	acquire := func(t int, o any) {
+		if l, ok := rel[o]; ok {
+			join(clock[t], l)
+		}
+	}
+	release := func(t int, o any, replace bool) {
+		l, ok := rel[o]
+		if !ok || replace {
+			l = make([]int, n)
+			rel[o] = l
+		}
+		join(l, clock[t])
+		clock[t][t]++
+	}
+	type mapKey struct{ m, k any }
+	type epoch struct{ t, c int }
+	lastW := map[any]epoch{}
+	reads := map[any]map[int]int{}
+	ordered := func(e epoch, t int) bool { return e.c <= clock[t][e.t] }
+	for _, ev := range out.Events {
+		t, o := ev.T, ev.Op
+		if t >= n {
+			continue
+		}
+		switch o.Kind {
+		case vsync.OpLock, vsync.OpWaitWake:
+			acquire(t, o.Obj)
+		case vsync.OpTryLock:
+			if o.Hit {
+				acquire(t, o.Obj)
+			}
+		case vsync.OpUnlock, vsync.OpWait:
+			release(t, o.Obj, true)
+		case vsync.OpLoadU32:
+			acquire(t, o.Obj)
+		case vsync.OpStoreU32:
+			release(t, o.Obj, false)
+		case vsync.OpMapLoad:
+			acquire(t, mapKey{o.Obj, o.Key})
+		case vsync.OpMapLoadOrStore:
+			acquire(t, mapKey{o.Obj, o.Key})
+			if !o.Hit {
+				release(t, mapKey{o.Obj, o.Key}, false)
+			}
+		case vsync.OpSpawn:
+			if c := int(o.R); c < n {
+				copy(clock[c], clock[t])
+				clock[c][c] = 1
+				clock[t][t]++
+			}
+		case vsync.OpPlainLoad:
+			if w, ok := lastW[o.Obj]; ok && w.t != t && !ordered(w, t) {
+				races = append(races, fmt.Sprintf("plain read by thread %d is not ordered after the plain write by thread %d (no happens-before path through the mutex or the done flag)", t, w.t))
+			}
+			if reads[o.Obj] == nil {
+				reads[o.Obj] = map[int]int{}
+			}
+			reads[o.Obj][t] = clock[t][t]
+		case vsync.OpPlainStore:
+			if w, ok := lastW[o.Obj]; ok && w.t != t && !ordered(w, t) {
+				races = append(races, fmt.Sprintf("plain write by thread %d is not ordered after the plain write by thread %d", t, w.t))
+			}
+			for u, c := range reads[o.Obj] {
+				if u != t && !ordered(epoch{u, c}, t) {
+					races = append(races, fmt.Sprintf("plain write by thread %d is not ordered after the plain read by thread %d", t, u))
+				}
+			}
+			lastW[o.Obj] = epoch{t, clock[t][t]}
+			delete(reads, o.Obj)
+		}
+	}
+	return
+}
+
 func cacheOracles(c cacheCfg, out *vsync.Outcome) (fs []finding) {
 	bad := func(o, d string) { fs = append(fs, finding{o, d}) }
 	if out.Stuck {
@@ -1079,8 +1459,9 @@ func cacheOracles(c cacheCfg, out *vsync.Outcome) (fs []finding) {
 		bad("cache/no-panic", "panic: "+out.Panic)
 		return
 	}
+	_, acyclic := c.costs()
 	fcalls, fdone := map[int]int{}, map[int]bool{}
-	inGet := map[int]int{} // thread -> step index at which its current Get started (-2: not in Get)
+	inGet := map[int]int{}
 	getStart := map[int]int{}
 	doReturned := map[int]bool{}   // some Do(k) has returned
 	getAfterDone := map[int]bool{} // the thread's current Get(k) started after a Do(k) had returned
@@ -1100,16 +1481,20 @@ func cacheOracles(c cacheCfg, out *vsync.Outcome) (fs []finding) {
 			getStart[nt.T] = nt.Step
 			k, _ := strconv.Atoi(nt.Text[3:])
 			getAfterDone[nt.T] = doReturned[k]
-		case strings.HasPrefix(nt.Text, "r:D"):
+		case strings.HasPrefix(nt.Text, "r:D"), strings.HasPrefix(nt.Text, "r:N"):
 			kv := strings.SplitN(nt.Text[3:], "=", 2)
 			k, _ := strconv.Atoi(kv[0])
+			what := "Do"
+			if nt.Text[2] == 'N' {
+				what = "nested Do"
+			}
 			if kv[1] != c.want(k) {
-				bad("cache/do-returns-f-value", fmt.Sprintf("thread %d: Do(%d) returned %s, f returns %s", nt.T, k, kv[1], c.want(k)))
+				bad("cache/do-returns-f-value", fmt.Sprintf("thread %d: %s(%d) returned %s, f returns %s", nt.T, what, k, kv[1], c.want(k)))
+			}
+			if !fdone[k] {
+				bad("cache/do-after-f", fmt.Sprintf("thread %d: %s(%d) returned before the call of f completed", nt.T, what, k))
 			}
 			doReturned[k] = true
-			if !fdone[k] {
-				bad("cache/do-after-f", fmt.Sprintf("thread %d: Do(%d) returned before the call of f completed", nt.T, k))
-			}
 		case strings.HasPrefix(nt.Text, "r:G"):
 			kv := strings.SplitN(nt.Text[3:], "=", 2)
 			k, _ := strconv.Atoi(kv[0])
@@ -1133,7 +1518,14 @@ func cacheOracles(c cacheCfg, out *vsync.Outcome) (fs []finding) {
 			inGet[nt.T] = 0
 		}
 	}
+	for _, r := range hbRaces(out) {
+		bad("cache/race-free", "unordered conflicting plain accesses to e.result: "+r)
+		break
+	}
 	if out.Deadlock {
+		if !acyclic {
+			return // f_k reaching Do(k) again blocks on its own entry mutex: the model says so too
+		}
 		what := ""
 		for _, t := range out.Blocked {
 			if inGet[t] == 1 {
@@ -1147,31 +1539,64 @@ func cacheOracles(c cacheCfg, out *vsync.Outcome) (fs []finding) {
 		bad("cache/terminates", fmt.Sprintf("the run took more than %d steps, the bound proved for the model (C10_schedules_finite: psi of the initial state)", c.stepBound()))
 		return
 	}
+	// every key some Do asked for, directly or through f's nested calls, was computed exactly once
+	need := map[int]bool{}
+	var mark func(k int)
+	mark = func(k int) {
+		if !need[k] {
+			need[k] = true
+			for _, d := range c.depsOf(k) {
+				mark(d)
+			}
+		}
+	}
 	for _, p := range c.progs {
 		for _, cl := range p {
-			if cl.do && fcalls[cl.k] != 1 {
-				bad("cache/f-once-per-key", fmt.Sprintf("key %d: f invoked %d times although Do(%d) was called", cl.k, fcalls[cl.k], cl.k))
+			if cl.do {
+				mark(cl.k)
 			}
+		}
+	}
+	for k := range need {
+		if fcalls[k] != 1 {
+			bad("cache/f-once-per-key", fmt.Sprintf("key %d: f invoked %d times although Do(%d) was called", k, fcalls[k], k))
 		}
 	}
 	return
 }
 
-func cacheEvents(c cacheCfg, out *vsync.Outcome) (events, sched, tail string, blockedLock int) {
-	curKey := map[int]int{}
+func cacheEvents(c cacheCfg, out *vsync.Outcome) (events, sched, tail string) {
+	keyStack := map[int][]int{}
+	top := func(t int) int {
+		if s := keyStack[t]; len(s) > 0 {
+			return s[len(s)-1]
+		}
+		return -1
+	}
+	apply := func(nt vsync.Note) {
+		switch {
+		case strings.HasPrefix(nt.Text, "c:D"), strings.HasPrefix(nt.Text, "c:G"):
+			k, _ := strconv.Atoi(nt.Text[3:])
+			keyStack[nt.T] = []int{k}
+		case strings.HasPrefix(nt.Text, "c:N"):
+			k, _ := strconv.Atoi(nt.Text[3:])
+			keyStack[nt.T] = append(keyStack[nt.T], k)
+		case strings.HasPrefix(nt.Text, "r:N"):
+			if s := keyStack[nt.T]; len(s) > 0 {
+				keyStack[nt.T] = s[:len(s)-1]
+			}
+		}
+	}
 	ni := 0
 	var evs, sch []string
 	fb := map[int]int{}
 	for si, st := range out.Steps {
 		for ni < len(out.Notes) && out.Notes[ni].Step < si {
-			nt := out.Notes[ni]
-			if strings.HasPrefix(nt.Text, "c:") {
-				curKey[nt.T], _ = strconv.Atoi(nt.Text[3:])
-			}
+			apply(out.Notes[ni])
 			ni++
 		}
 		var ops []string
-		k := curKey[st.T]
+		k := top(st.T)
 		for _, o := range st.Ops {
 			switch o.Kind {
 			case vsync.OpMapLoad:
@@ -1190,6 +1615,10 @@ func cacheEvents(c cacheCfg, out *vsync.Outcome) (events, sched, tail string, bl
 				ops = append(ops, fmt.Sprintf("lk%d", k))
 			case vsync.OpUnlock:
 				ops = append(ops, fmt.Sprintf("ul%d", k))
+			case vsync.OpPlainStore:
+				ops = append(ops, fmt.Sprintf("pw%d", k))
+			case vsync.OpPlainLoad:
+				ops = append(ops, fmt.Sprintf("pr%d", k))
 			case vsync.OpYield:
 				ops = append(ops, fmt.Sprintf("%s%d", o.Tag, k))
 				if o.Tag == "fb" {
@@ -1200,18 +1629,29 @@ func cacheEvents(c cacheCfg, out *vsync.Outcome) (events, sched, tail string, bl
 			}
 		}
 		for kk := ni; kk < len(out.Notes) && out.Notes[kk].Step == si; kk++ {
-			if nt := out.Notes[kk]; strings.HasPrefix(nt.Text, "r:") {
+			nt := out.Notes[kk]
+			if strings.HasPrefix(nt.Text, "r:N") {
+				ops = append(ops, "nret:D"+nt.Text[3:])
+			} else if strings.HasPrefix(nt.Text, "r:") {
 				ops = append(ops, "ret:"+nt.Text[2:])
 			}
 		}
-		// threads that are alive but not runnable after this step are blocked in Lock
 		evs = append(evs, fmt.Sprintf("%d:%s/%d", st.T, strings.Join(ops, "+"), mask(st.EnabledAfter)))
 		sch = append(sch, strconv.Itoa(st.T))
 	}
 	keys := map[int]bool{}
+	var mark func(k int)
+	mark = func(k int) {
+		if !keys[k] {
+			keys[k] = true
+			for _, d := range c.depsOf(k) {
+				mark(d)
+			}
+		}
+	}
 	for _, p := range c.progs {
 		for _, cl := range p {
-			keys[cl.k] = true
+			mark(cl.k)
 		}
 	}
 	var ks []int
@@ -1230,11 +1670,26 @@ func cacheEvents(c cacheCfg, out *vsync.Outcome) (events, sched, tail string, bl
 		return strings.Join(x, sep)
 	}
 	idle := !out.Deadlock && !out.StepLimit && out.Panic == ""
-	return join(evs, ","), join(sch, "."), fmt.Sprintf("idle=%v fb=%s", idle, join(fbs, ".")), 0
+	return join(evs, ","), join(sch, "."), fmt.Sprintf("idle=%v fb=%s", idle, join(fbs, "."))
+}
+
+func cacheMode() string {
+	if plainVisible {
+		return "p"
+	}
+	return "i"
+}
+
+func (c cacheCfg) text(sched string) string {
+	d := ""
+	if len(c.deps) > 0 {
+		d = fmt.Sprintf(", f_k calls Do on the keys deps[k] = %v", c.deps)
+	}
+	return fmt.Sprintf("goroutine programs %s (D = Do, G = Get, number = key), f values %v (0 = nil)%s; schedule (thread per operation) %s", c.progStr(), c.vals, d, sched)
 }
 
 func oneCache(c cacheCfg, out *vsync.Outcome, src string) bool {
-	events, sched, tail, _ := cacheEvents(c, out)
+	events, sched, tail := cacheEvents(c, out)
 	input := map[string]string{"prop": "C10", "cfg": c.String(), "decisions": dots(chosen(out.Decisions)), "schedule": sched, "source": src}
 	fs := cacheOracles(c, out)
 	ok := len(fs) == 0
@@ -1249,9 +1704,12 @@ func oneCache(c cacheCfg, out *vsync.Outcome, src string) bool {
 				break
 			}
 		}
-		_, sched2, _, _ := cacheEvents(c, bestOut)
-		in2 := map[string]string{"prop": "C10", "cfg": c.String(), "decisions": dots(best), "schedule": sched2, "source": src,
-			"text": fmt.Sprintf("goroutine programs %s (D = Do, G = Get, number = key), f values %v; schedule (thread per operation) %s", c.progStr(), c.vals, sched2)}
+		c2, best2, out2 := shrinkCacheCfg(c, best, bestOut, fs[0].oracle)
+		if f2 := cacheOracles(c2, out2); len(f2) > 0 {
+			c, best, bestOut, fs = c2, best2, out2, f2
+		}
+		_, sched2, _ := cacheEvents(c, bestOut)
+		in2 := map[string]string{"prop": "C10", "cfg": c.String(), "decisions": dots(best), "schedule": sched2, "source": src, "text": c.text(sched2)}
 		for _, f := range fs {
 			violate(f.oracle, f.detail, in2)
 		}
@@ -1266,8 +1724,11 @@ func oneCache(c cacheCfg, out *vsync.Outcome, src string) bool {
 	if contended {
 		res.Count("contended(lock or Get during f)")
 	}
+	if strings.Contains(events, "nret:") {
+		res.Count("nested-do")
+	}
 	if strings.Contains(events, "=nil") {
-		res.Count("get-returned-nil")
+		res.Count("returned-nil")
 	}
 	if out.Deadlock {
 		res.Count("outcome:deadlock")
@@ -1277,7 +1738,7 @@ func oneCache(c cacheCfg, out *vsync.Outcome, src string) bool {
 	if res.Evaluations%1499 == 1 {
 		res.Sample(map[string]any{"cfg": c.String(), "schedule": sched, "events": events, "final": tail, "source": src})
 	}
-	cmpBatch = append(cmpBatch, pendingCmp{req: fmt.Sprintf("cache %s %s %s", c.progStr(), dots(c.vals), sched),
+	cmpBatch = append(cmpBatch, pendingCmp{req: fmt.Sprintf("cache %s %s %s %s %s", cacheMode(), c.progStr(), dots(c.vals), c.depStr(), sched),
 		implEvents: events, implTail: tail, input: input, what: "cache/replay-on-model"})
 	if len(cmpBatch) >= 500 {
 		flushCmp()
@@ -1285,13 +1746,87 @@ func oneCache(c cacheCfg, out *vsync.Outcome, src string) bool {
 	return ok
 }
 
+// searchCache looks for a schedule of c failing the given oracle: the default schedule, then a bounded DFS.
+func searchCache(c cacheCfg, oracle string, budget int) (dec []int, out *vsync.Outcome, found bool) {
+	dfs(func(st vsync.Strategy) *vsync.Outcome { return runCache(c, st) }, 2, budget, func(o *vsync.Outcome) bool {
+		if f := cacheOracles(c, o); len(f) > 0 && f[0].oracle == oracle {
+			dec, out, found = chosen(o.Decisions), o, true
+			return false
+		}
+		return true
+	})
+	return
+}
+
+// shrinkCacheCfg: greedily remove goroutines, calls and dependencies while some schedule still fails the oracle.
+func shrinkCacheCfg(c cacheCfg, dec []int, out *vsync.Outcome, oracle string) (cacheCfg, []int, *vsync.Outcome) {
+	budget := 300
+	try := func(c2 cacheCfg) bool {
+		if d2, o2, ok := searchCache(c2, oracle, budget); ok {
+			c, dec, out = c2, d2, o2
+			return true
+		}
+		return false
+	}
+	for changed := true; changed; {
+		changed = false
+		for t := 0; t < len(c.progs) && len(c.progs) > 1; t++ { // drop a goroutine
+			c2 := c
+			c2.progs = append(append([][]ccall{}, c.progs[:t]...), c.progs[t+1:]...)
+			if try(c2) {
+				changed = true
+				t--
+			}
+		}
+		for t := 0; t < len(c.progs); t++ { // drop a call
+			for i := 0; i < len(c.progs[t]) && len(c.progs[t]) > 1; i++ {
+				c2 := c
+				c2.progs = append([][]ccall{}, c.progs...)
+				c2.progs[t] = append(append([]ccall{}, c.progs[t][:i]...), c.progs[t][i+1:]...)
+				if try(c2) {
+					changed = true
+					i--
+				}
+			}
+		}
+		for k := 0; k < len(c.deps); k++ { // drop a dependency
+			for i := 0; i < len(c.deps[k]); i++ {
+				c2 := c
+				c2.deps = append([][]int{}, c.deps...)
+				c2.deps[k] = append(append([]int{}, c.deps[k][:i]...), c.deps[k][i+1:]...)
+				if try(c2) {
+					changed = true
+					i--
+				}
+			}
+		}
+	}
+	// shortest forced prefix again
+	for k := 0; k < len(dec); k++ {
+		o2 := runCache(c, &prefixStrat{prefix: dec[:k]})
+		if f := cacheOracles(c, o2); len(f) > 0 && f[0].oracle == oracle {
+			return c, dec[:k], o2
+		}
+	}
+	return c, dec, out
+}
+
 func smallCacheCfgs() []cacheCfg {
-	mk := func(s string) cacheCfg { c, _ := parseCacheCfg(s + "|100.101"); return c }
-	mkv := func(s, v string) cacheCfg { c, _ := parseCacheCfg(s + "|" + v); return c }
+	mk := func(s string) cacheCfg {
+		c, ok := parseCacheCfg(s)
+		if !ok {
+			panic("bad built-in configuration " + s)
+		}
+		return c
+	}
 	return []cacheCfg{
-		mk("D0/D0"), mk("D0/G0"), mk("D0.G0/G0.D0"), mk("D0/D0/D0"), mk("D0/D0/G0"),
-		mk("D0.D1/D1.D0"), mk("D0.G1/G0.D0/D1"), mk("G0.D0.G0/D0"), mk("D0.D0/G0.G0"), mk("D0/G0/G0.D0"),
-		mkv("D0.D0.G0/D0", "0"), mkv("D0.D1/G0.D0", "0.7"), // f_0 returns nil: still computed once
+		mk("D0/D0|100.101"), mk("D0/G0|100.101"), mk("D0.G0/G0.D0|100.101"), mk("D0/D0/D0|100.101"), mk("D0/D0/G0|100.101"),
+		mk("D0.D1/D1.D0|100.101"), mk("D0.G1/G0.D0/D1|100.101"), mk("G0.D0.G0/D0|100.101"), mk("D0.D0/G0.G0|100.101"), mk("D0/G0/G0.D0|100.101"),
+		mk("D0.D0.G0/D0|0"), mk("D0.D1/G0.D0|0.7"), // f_0 returns nil: still computed once
+		mk("D0/D1|100.101|1/-"),                 // f_0 calls Do(1) while another goroutine calls Do(1) itself
+		mk("D0/D0.G1|100.101|1/-"),              // two callers of the outer key
+		mk("D0/D2.G0|100.101.0|1.2/2/-"),        // two levels of nesting, f_2 returns nil (the Coq example)
+		mk("D0|100|0"), mk("D0/D1|100.101|1/0"), // CYCLIC dependencies: Do deadlocks on its own entry mutex (model and code agree)
 	}
 }
 
@@ -1303,6 +1838,17 @@ func randCacheCfg(r *common.RNG, maxT, maxCalls, maxKeys int) cacheCfg {
 			c.vals = append(c.vals, 0) // f_k returns nil
 		} else {
 			c.vals = append(c.vals, 100+k)
+		}
+	}
+	if r.Intn(3) == 0 { // acyclic nested Do: f_k only calls keys above k
+		c.deps = make([][]int, nk)
+		for k := 0; k < nk; k++ {
+			c.deps[k] = []int{}
+			for d := k + 1; d < nk; d++ {
+				if r.Intn(2) == 0 {
+					c.deps[k] = append(c.deps[k], d)
+				}
+			}
 		}
 	}
 	for t := 2 + r.Intn(maxT-1); t > 0; t-- {
@@ -1318,13 +1864,40 @@ func randCacheCfg(r *common.RNG, maxT, maxCalls, maxKeys int) cacheCfg {
 func mainCache() {
 	thorough := fl.Tier == "thorough"
 	r := common.NewRNG(fl.Seed)
+	if !plainVisible {
+		noteOnce("the plain accesses to e.result could not be made scheduling points in the instrumented copy; the model runs through them after each step and the happens-before oracle has nothing to check")
+	}
 	for _, c := range smallCacheCfgs() {
 		if !thorough && len(c.progs) >= 3 && len(c.progs[0])+len(c.progs[1])+len(c.progs[2]) > 4 {
 			continue
 		}
-		modelExplore(fmt.Sprintf("cacheexplore %s %s %d", c.progStr(), dots(c.vals), 3000000), c.String())
+		modelExplore(fmt.Sprintf("cacheexplore %s %s %s %d", c.progStr(), dots(c.vals), c.depStr(), 3000000), c.String())
 	}
-	bound, maxRuns := 2, 1500
+	// transition cover: every transition of the model's state graph taken on the code at least once
+	coverCap := 6000
+	if thorough {
+		coverCap = 400000
+	}
+	allCovered := true
+	if plainVisible {
+		for _, c := range smallCacheCfgs() {
+			if enough() {
+				allCovered = false
+				break
+			}
+			if !coverConfig(fmt.Sprintf("cachecover %s %s %s %d", c.progStr(), dots(c.vals), c.depStr(), coverCap), c.String(), func(sch [][2]int) (*vsync.Outcome, string) {
+				st := &replayStrat{sched: sch}
+				out := runCache(c, st)
+				oneCache(c, out, "transition-cover")
+				return out, st.diverged
+			}) {
+				allCovered = false
+			}
+		}
+	} else {
+		allCovered = false
+	}
+	bound, maxRuns := 2, 1200
 	if thorough {
 		bound, maxRuns = 3, 60000
 	}
@@ -1332,13 +1905,13 @@ func mainCache() {
 		c := c
 		_, complete := dfs(func(st vsync.Strategy) *vsync.Outcome { return runCache(c, st) }, bound, maxRuns,
 			func(out *vsync.Outcome) bool { return oneCache(c, out, "dfs") && !enough() })
-		if enough() {
-			break
-		}
 		if complete {
-			res.Count("dfs-complete")
+			res.Count("dfs-complete(bounded)")
 		} else {
 			res.Count("dfs-truncated")
+		}
+		if enough() {
+			break
 		}
 	}
 	flushCmp()
@@ -1349,9 +1922,9 @@ func mainCache() {
 	var reqs []string
 	var cfgs []cacheCfg
 	for i := 0; i < nModel; i++ {
-		c := randCacheCfg(r, 3, 3, 2)
+		c := randCacheCfg(r, 3, 3, 3)
 		cfgs = append(cfgs, c)
-		reqs = append(reqs, fmt.Sprintf("cacherand %s %s %d", c.progStr(), dots(c.vals), r.Intn(1<<30)))
+		reqs = append(reqs, fmt.Sprintf("cacherand %s %s %s %s %d", cacheMode(), c.progStr(), dots(c.vals), c.depStr(), r.Intn(1<<30)))
 	}
 	ans, err := mdl.Ask(reqs)
 	if err == nil {
@@ -1376,12 +1949,12 @@ func mainCache() {
 		}
 	}
 	flushCmp()
-	nRand := 4000
+	nRand := 3000
 	if thorough {
 		nRand = 150000
 	}
 	for i := 0; i < nRand && !enough(); i++ {
-		c := randCacheCfg(r, 6, 4, 3)
+		c := randCacheCfg(r, 6, 4, 4)
 		st := &randStrat{r: r.Fork(), prio: i%2 == 0}
 		if st.prio {
 			st.changes = map[int]bool{}
@@ -1396,7 +1969,48 @@ func mainCache() {
 		oneCache(c, runCache(c, st), src)
 	}
 	flushCmp()
-	res.Rule = fmt.Sprintf("real par.Cache on the vsync scheduler, every sync.Map / atomic / mutex operation a scheduling point: exhaustive DFS over all interleavings with <= %d pre-emptions (cap %d runs per configuration) of %d configurations (2-3 goroutines, 1-2 keys, Do/Get mixes); %d complete schedules drawn from the Coq model and replayed on the code; %d random / priority-based schedules for up to 6 goroutines x 4 calls x 3 keys; every executed schedule is replayed on the extracted model (operation trace with loaded/stored values, returned values, runnable set after every step); the model's state space (plain accesses as separate steps) is explored exhaustively for the small configurations. A case is non-trivial when its schedule has a pre-emption; distinct = distinct (configuration, operation trace).", bound, maxRuns, len(smallCacheCfgs()), nModel, nRand)
+	res.Exhaustive = allCovered
+	res.Rule = fmt.Sprintf("real par.Cache on the vsync scheduler, every sync.Map / atomic / mutex operation AND the plain write/read of e.result a scheduling point (instrumented copy regenerated from the source; plain accesses instrumented: %v): for %d small configurations (2-3 goroutines, 1-3 keys, Do/Get mixes, nil-returning f, nested Do with acyclic and cyclic dependencies) a TRANSITION COVER of the model's complete state graph (every transition of every reachable state taken on the code at least once; `exhaustive` = this cover was complete for every configuration, cap %d states) and a DFS over all interleavings with <= %d pre-emptions (cap %d runs per configuration); %d complete schedules drawn from the Coq model and replayed on the code; %d random / priority-based schedules for up to 6 goroutines x 4 calls x 4 keys with random acyclic nesting; every executed schedule is replayed on the extracted model (operation trace with loaded/stored values, returned values incl. those of nested calls, runnable set after every step); direct oracles incl. a happens-before (vector clock) check of the plain accesses over the shim's event log. A case is non-trivial when its schedule has a pre-emption; distinct = distinct (configuration, operation trace).",
+		plainVisible, len(smallCacheCfgs()), coverCap, bound, maxRuns, nModel, nRand)
+}
+
+// coverConfig asks the model for a transition cover of a configuration's state graph and replays every path on the code.
+func coverConfig(req, key string, replay func(sch [][2]int) (*vsync.Outcome, string)) bool {
+	ans := mdl.Ask1(req)
+	f := strings.Fields(ans)
+	if len(f) < 5 || f[0] != "ok" {
+		res.Violate(common.Violation{Kind: "correspondence", Oracle: "model-cover", Input: map[string]string{"request": req}, Model: ans, Key: "cover:" + key})
+		return false
+	}
+	if !strings.Contains(ans, "complete=true") {
+		res.Count("cover:state-graph-too-large")
+		return false
+	}
+	paths := strings.Split(f[len(f)-1], ";")
+	n := 0
+	for _, p := range paths {
+		if p == "-" || p == "" {
+			continue
+		}
+		if enough() {
+			res.Count("cover:truncated")
+			return false
+		}
+		sch := parseSched(p)
+		out, diverged := replay(sch)
+		if diverged == "" && len(out.Steps) != len(sch) && !out.Deadlock {
+			diverged = fmt.Sprintf("the code ran %d steps, the model path has %d", len(out.Steps), len(sch))
+		}
+		if diverged != "" {
+			res.Violate(common.Violation{Kind: "correspondence", Oracle: "model-path-on-code",
+				Input:  map[string]string{"prop": prop, "cfg": key, "schedule": p, "decisions": dots(chosen(out.Decisions))},
+				Detail: diverged, Key: "cover-path:" + key + ":" + p})
+		}
+		n++
+	}
+	res.Count("cover:complete-configs")
+	res.Sample(map[string]any{"transition-cover": key, "graph": strings.Join(f[1:len(f)-1], " "), "paths-replayed": n})
+	return true
 }
 
 // ---------------------------------------------------------------- race detector on the unmodified package
@@ -1539,7 +2153,7 @@ func main() {
 			}
 		} else {
 			for _, c := range smallCacheCfgs()[:6] {
-				modelExplore(fmt.Sprintf("cacheexplore %s %s %d", c.progStr(), dots(c.vals), 3000000), c.String())
+				modelExplore(fmt.Sprintf("cacheexplore %s %s %s %d", c.progStr(), dots(c.vals), c.depStr(), 3000000), c.String())
 			}
 		}
 		res.Rule = "fallback: uncontrolled stress of the unmodified package under the race detector (instrumented copy unavailable)"
